@@ -78,3 +78,17 @@ Definition check_2005 (fs : list field) : verdict :=
          (expect 3 ((g64 =? f64v) && (n64 =? f64n)) [FZ g64; FZ n64]))
   | _ => VBad 99 []
   end.
+
+(* 2006: AppendSpeculativeLength + payload + FinishSpeculativeLength.
+   fields: prefix, payload, result, reference (protowire.AppendVarint(prefix, len) ++ payload) *)
+From DG Require Import ProtoSpecLen.
+Definition zeros9 : list Z := [0;0;0;0;0;0;0;0;0].
+Definition check_2006 (fs : list field) : verdict :=
+  match fs with
+  | [FB prefix; FB payload; FB res; FB ref] =>
+    let b := fst (append_spec prefix) ++ payload in
+    let m := finish_spec b zeros9 (snd (append_spec prefix)) in
+    vand (expect 1 (bytes_eqb res m) [FB m])
+         (expect 2 (bytes_eqb res ref) [FB ref])
+  | _ => VBad 99 []
+  end.
